@@ -100,6 +100,9 @@ def run(tier, v):
     cov["selftest_slow_rejected"] = vlib.selftest_reject("TransferObs", "TransferObs_c11.cfg", files[0], slow)
     if not cov["selftest_slow_rejected"]:
         raise vlib.Infra("binding self-test failed")
+    # extension beyond the listed properties (never a verdict on C11): the error-termination
+    # sub-protocol that Transfer abstracts into one Fail step (spec/ErrorPaths.tla)
+    vlib.run_extension("x05", tier, cov)
     return cov
 
 
